@@ -378,8 +378,18 @@ impl Scenario for C06 {
     }
     fn generate(&self, rng: &mut Rng, tier: Tier, _idx: u64) -> C06Plan {
         // (1 run in 50: more aircraft than the property's 1-4, to load the state map)
-        let n_ac = if rng.chance(0.02) { rng.usize(8, 40) } else { *rng.pick(&[1usize, 1, 2, 2, 3, 4]) };
+        // (1 run in 2500: a long recording - tens of thousands of reports, as the
+        // offline batch driver decode_positions and the bindings are given)
+        let long = rng.chance(0.0004);
+        let n_ac = if long {
+            rng.usize(30, 40)
+        } else if rng.chance(0.02) {
+            rng.usize(8, 40)
+        } else {
+            *rng.pick(&[1usize, 1, 2, 2, 3, 4])
+        };
         let max_reports = match tier {
+            _ if long => 4000,
             Tier::Quick if n_ac > 4 => 25,
             Tier::Quick => 120,
             Tier::Thorough => {
@@ -429,8 +439,8 @@ impl Scenario for C06 {
                 }
             }
         };
-        let loss = *rng.pick(&[0.0, 0.0, 0.1, 0.3, 0.6, 0.95]);
-        let heavy = rng.chance(0.6);
+        let loss = if long { 0.0 } else { *rng.pick(&[0.0, 0.0, 0.1, 0.3, 0.6, 0.95]) };
+        let heavy = !long && rng.chance(0.6);
         let mut all: Vec<Report> = Vec::new();
         for (a, g) in gens.iter().enumerate() {
             let r = emit_reports(rng, a as u8, g, max_reports);
@@ -438,6 +448,19 @@ impl Scenario for C06 {
             let l = if a == 0 && kind >= 4 { 0.0 } else { loss };
             let h = if a == 0 && kind >= 4 { rng.chance(0.2) } else { heavy };
             all.extend(apply_channel_faults(rng, r, l, h));
+        }
+        if long {
+            // further traffic until the recording has 33-40 thousand reports
+            let target = rng.usize(33_000, 40_000);
+            while all.len() < target && gens.len() < 250 {
+                let mut g = gen_aircraft(rng, 0, max_reports);
+                while gens.iter().any(|o| o.plan.icao == g.plan.icao) {
+                    g.plan.icao = rng.range(1, 0xFF_FFFE) as u32;
+                }
+                let r = emit_reports(rng, gens.len() as u8, &g, max_reports);
+                all.extend(apply_channel_faults(rng, r, 0.0, false));
+                gens.push(g);
+            }
         }
         // merge in timestamp order (ties: by aircraft), then local order swaps
         all.sort_by(|a, b| a.ts.partial_cmp(&b.ts).unwrap().then(a.ac.cmp(&b.ac)));
@@ -453,7 +476,7 @@ impl Scenario for C06 {
             }
         }
         let mut restarts = Vec::new();
-        if rng.chance(0.3) && !all.is_empty() {
+        if !long && rng.chance(0.3) && !all.is_empty() {
             for _ in 0..rng.range(1, 3) {
                 restarts.push(rng.usize(0, all.len() - 1));
             }
@@ -909,6 +932,12 @@ pub fn execute(plan: &C06Plan) -> Outcome<C06Plan> {
     // ---- probes, counters, signature --------------------------------------
     let mut sig = Fnv::new();
     out.count("reports_fed", built.len() as u64);
+    if built.len() > 32_768 {
+        out.count("recording_longer_than_32768", 1);
+    }
+    if built.len() > 10_000 {
+        out.count("recording_longer_than_10000", 1);
+    }
     out.count("positions_attached", attached);
     if plan.aircraft.len() > 1 {
         out.count("multi_aircraft", 1);
